@@ -68,6 +68,24 @@ def spec_hash(files):
     return h.hexdigest()[:24]
 
 
+def prune_cache(limit=3 << 30):
+    """keep the spec-only TLC cache below `limit` bytes: oldest entries go first"""
+    try:
+        ents = []
+        for d in os.listdir(CACHE):
+            dp = os.path.join(CACHE, d)
+            sz = sum(os.path.getsize(os.path.join(dp, f)) for f in os.listdir(dp))
+            ents.append((os.path.getmtime(dp), sz, dp))
+        tot = sum(e[1] for e in ents)
+        for _, sz, dp in sorted(ents):
+            if tot <= limit:
+                break
+            shutil.rmtree(dp, ignore_errors=True)
+            tot -= sz
+    except OSError:
+        pass
+
+
 TLC_STATS = re.compile(r"(\d+) states generated, (\d+) distinct states found")
 
 
@@ -86,6 +104,7 @@ def tlc(module, cfg_text, name, workers=8, timeout=1800, env=None, simulate=None
         m["cached"] = True
         m["out"] = outp
         return m
+    prune_cache()
     os.makedirs(cdir, exist_ok=True)
     cfgp = os.path.join(SPEC, f"_{name}_{key}.cfg")
     with open(cfgp, "w") as f:
